@@ -23,6 +23,10 @@ type CCase struct {
 	PerG       int  `json:"per_goroutine"`
 	CatchAll   bool `json:"catch_all"`
 	Index      int  `json:"index"` // every Index-th command (0: none) is registered by index instead of by name
+	// ConcReg: the handlers are registered by as many goroutines at the same time (every one also
+	// registers 20 index keys nobody uses), as several Dial calls sharing one state machine do;
+	// the dispatching starts when all registrations have returned.
+	ConcReg bool `json:"conc_reg,omitempty"`
 }
 
 type target struct {
@@ -75,8 +79,10 @@ func runConcurrentDispatch(c CCase) *ev.Failure {
 	mux := diam.NewServeMux()
 	var wrong, catchAll, reports int64
 	var firstWrong atomic.Value
+	var regs sync.WaitGroup
+	regStart := make(chan struct{})
 	for i, tg := range ts {
-		tg := tg
+		i, tg := i, tg
 		h := diam.HandlerFunc(func(_ diam.Conn, m *diam.Message) {
 			if m.Header.CommandCode != tg.code || (m.Header.CommandFlags&0x80 != 0) != tg.req {
 				if atomic.AddInt64(&wrong, 1) == 1 {
@@ -84,12 +90,32 @@ func runConcurrentDispatch(c CCase) *ev.Failure {
 				}
 			}
 		})
-		if c.Index > 0 && i%c.Index == 0 {
-			mux.HandleIdx(diam.CommandIndex{AppID: tg.app, Code: tg.code, Request: tg.req}, h)
-		} else {
-			mux.Handle(tg.name, h)
+		register := func() {
+			if c.Index > 0 && i%c.Index == 0 {
+				mux.HandleIdx(diam.CommandIndex{AppID: tg.app, Code: tg.code, Request: tg.req}, h)
+			} else {
+				mux.Handle(tg.name, h)
+			}
 		}
+		if !c.ConcReg {
+			register()
+			continue
+		}
+		regs.Add(1)
+		go func() {
+			defer regs.Done()
+			<-regStart
+			for k := 0; k < 10; k++ {
+				mux.HandleIdx(diam.CommandIndex{AppID: uint32(900000 + i), Code: uint32(k), Request: true}, h)
+			}
+			register()
+			for k := 10; k < 20; k++ {
+				mux.HandleIdx(diam.CommandIndex{AppID: uint32(900000 + i), Code: uint32(k), Request: true}, h)
+			}
+		}()
 	}
+	close(regStart)
+	regs.Wait()
 	if c.CatchAll {
 		mux.HandleFunc("ALL", func(diam.Conn, *diam.Message) { atomic.AddInt64(&catchAll, 1) })
 	}
@@ -132,24 +158,24 @@ func runConcurrentDispatch(c CCase) *ev.Failure {
 		return ev.Failf("concurrent:wrong-handler", "%d goroutines dispatching %d messages each through one mux: %d messages reached the handler of another command (%v)", len(ts), c.PerG, n, firstWrong.Load())
 	}
 	if n := atomic.LoadInt64(&catchAll); n > 0 {
-		return ev.Failf("concurrent:catch-all-instead-of-handler", "%d goroutines dispatching through one mux: %d messages went to the catch-all although a handler is registered for every command sent", len(ts), n)
+		return ev.Failf("concurrent:catch-all-instead-of-handler", "%d goroutines dispatching through one mux: %d messages went to the catch-all although a handler is registered for every command sent (registered concurrently: %v)", len(ts), n, c.ConcReg)
 	}
 	if n := atomic.LoadInt64(&reports); n > 0 {
-		return ev.Failf("concurrent:error-report-instead-of-handler", "%d goroutines dispatching through one mux: at least %d messages ended in an error report although a handler is registered for every command sent", len(ts), n)
+		return ev.Failf("concurrent:error-report-instead-of-handler", "%d goroutines dispatching through one mux: at least %d messages ended in an error report although a handler is registered for every command sent (registered concurrently: %v)", len(ts), n, c.ConcReg)
 	}
 	return nil
 }
 
 var concurrentProp = ev.Register(&ev.Prop[CCase]{
 	ID: "C09", Name: "concurrent-dispatch",
-	Rule: "2..12 goroutines dispatch 500..4000 messages each, every goroutine its own (application, command, direction) of dict.Default, through ONE ServeMux on which each of those commands has a handler by name (every k-th by index), with or without a catch-all; every message must reach the handler of its own command, none the catch-all or an error report; non-trivial = >= 4 goroutines",
+	Rule: "2..12 goroutines dispatch 500..4000 messages each, every goroutine its own (application, command, direction) of dict.Default, through ONE ServeMux on which each of those commands has a handler by name (every k-th by index), registered one after the other or by as many goroutines at once (each registering 20 unused index keys as well), with or without a catch-all; every message must reach the handler of its own command, none the catch-all or an error report; non-trivial = >= 4 goroutines",
 	Gen: func(t *rapid.T) CCase {
 		return CCase{Goroutines: rapid.IntRange(2, 12).Draw(t, "goroutines"), PerG: rapid.SampledFrom([]int{500, 1000, 4000}).Draw(t, "per-goroutine"),
-			CatchAll: rapid.Bool().Draw(t, "catch-all"), Index: rapid.SampledFrom([]int{0, 0, 2, 3}).Draw(t, "index")}
+			CatchAll: rapid.Bool().Draw(t, "catch-all"), Index: rapid.SampledFrom([]int{0, 0, 2, 3}).Draw(t, "index"), ConcReg: rapid.Bool().Draw(t, "registered-concurrently")}
 	},
 	Run: runConcurrentDispatch,
 	Classify: func(c CCase) (bool, []string) {
-		return c.Goroutines >= 4, []string{fmt.Sprintf("goroutines:%d", c.Goroutines)}
+		return c.Goroutines >= 4, []string{fmt.Sprintf("goroutines:%d", c.Goroutines), fmt.Sprintf("registered-concurrently:%v", c.ConcReg)}
 	},
 })
 
